@@ -1,4 +1,5 @@
-(* C04 — executable model M of Lambda.Call's argument binder (lambda.go, two passes over Doc.Args). *)
+(* C04 — executable model M of Lambda.Call's argument binder (lambda.go, two passes over Doc.Args), as it
+   stands after the repairs C04-1 .. C04-9 (repo_fixes). *)
 From Coq Require Export List Bool NArith ZArith Lia.
 Export ListNotations.
 
@@ -20,35 +21,70 @@ Definition bind (b : list (N * value)) (x : N) (v : value) : list (N * value) :=
 
 Inductive mode := MReq | MOpt | MRest | MKey.
 
-Definition is_later_param (k : N) (ds : list docarg) : bool :=
-  existsb (fun d => match d_name d with PVar x => N.eqb x k | _ => false end) ds.
+(* FuncDoc.getKeyArg: the names between &key and &allow-other-keys / &aux *)
+Fixpoint key_params_from (inkeys : bool) (ds : list docarg) : list N :=
+  match ds with
+  | [] => []
+  | d :: ds' =>
+      match d_name d with
+      | PKey => key_params_from true ds'
+      | PAllow | PAux => key_params_from false ds'
+      | PVar x => if inkeys then x :: key_params_from inkeys ds' else key_params_from inkeys ds'
+      | _ => key_params_from inkeys ds'
+      end
+  end.
+Definition key_params (ds : list docarg) : list N := key_params_from false ds.
+Definition is_key_param (ks : list N) (k : N) : bool := existsb (N.eqb k) ks.
+Definition has_allow (ds : list docarg) : bool :=
+  existsb (fun d => match d_name d with PAllow => true | _ => false end) ds.
+(* the keyword :allow-other-keys (its "name" is no parameter index the harness uses) *)
+Definition allow_kw : N := 999.
+(* FuncDoc.otherKeyAllowed: the keyword is :allow-other-keys itself, the lambda list has &allow-other-keys, or
+   the key arguments hold :allow-other-keys (at an even position; the first counts) with a non-nil value *)
+Fixpoint allow_in_args (keyargs : list arg) : bool :=
+  match keyargs with
+  | a :: v :: rest => match a with
+                      | AKw k => if N.eqb k allow_kw then match v with ANil => false | _ => true end else allow_in_args rest
+                      | _ => allow_in_args rest
+                      end
+  | _ => false
+  end.
+Definition other_key_allowed (allow : bool) (keyargs : list arg) (k : N) : bool :=
+  N.eqb k allow_kw || allow || allow_in_args keyargs.
 
-(* restMode inner loop: collect arguments until a keyword that names a later parameter *)
-Fixpoint rest_loop (later : list docarg) (args : list arg) (acc : list arg) : list arg * list arg * bool :=
+(* restMode inner loop: collect arguments until a keyword that names a &key parameter *)
+Fixpoint rest_loop (ks : list N) (args : list arg) (acc : list arg) : list arg * list arg * bool :=
   match args with
   | [] => (acc, [], false)
   | a :: args' =>
       match a with
-      | AKw k => if is_later_param k later then (acc, args, true) else rest_loop later args' (acc ++ [a])
-      | _ => rest_loop later args' (acc ++ [a])
+      | AKw k => if is_key_param ks k then (acc, args, true) else rest_loop ks args' (acc ++ [a])
+      | _ => rest_loop ks args' (acc ++ [a])
       end
   end.
-(* keyMode inner loop: every keyword is bound, whatever its name *)
-Fixpoint key_loop (fuel : nat) (args : list arg) (b : list (N * value)) : list (N * value) + kind :=
+(* keyMode inner loop: a keyword naming a &key parameter binds it unless it is bound already (the first
+   of several counts); any other keyword is an error unless other keys are allowed *)
+Fixpoint key_loop (fuel : nat) (ks : list N) (allow : bool) (keyargs : list arg) (args : list arg) (b : list (N * value))
+  : list (N * value) + kind :=
   match fuel with
   | O => inr KFault
   | S f =>
       match args with
       | [] => inl b
-      | AKw k :: [] => inr KFault                      (* panic("Missing value for key") : a Go panic *)
-      | AKw k :: v :: args' => key_loop f args' (bind b k (arg_val v))
+      | AKw k :: [] => inr KBadKey                     (* ErrorPanic: Missing value for key *)
+      | AKw k :: v :: args' =>
+          if is_key_param ks k
+          then key_loop f ks allow keyargs args' (match lookup b k with Some _ => b | None => bind b k (arg_val v) end)
+          else if other_key_allowed allow keyargs k then key_loop f ks allow keyargs args' b
+               else inr KBadKey                        (* ProgramPanic: not a keyword parameter *)
       | (AInt _ | ANil) :: _ => inr KBadKey            (* TypePanic: keyword to function *)
       end
   end.
 
 Record p1 := { p_args : list arg; p_b : list (N * value); p_rest : list arg; p_restsym : option N; p_err : option kind }.
 
-Fixpoint pass1 (ds : list docarg) (m : mode) (st : p1) : p1 :=
+(* first pass; ks = key_params of the whole lambda list, allow = has_allow of it *)
+Fixpoint pass1 (ks : list N) (allow : bool) (ds : list docarg) (m : mode) (st : p1) : p1 :=
   match ds with
   | [] => st
   | ad :: ds' =>
@@ -59,24 +95,28 @@ Fixpoint pass1 (ds : list docarg) (m : mode) (st : p1) : p1 :=
           match m with
           | MReq | MOpt =>
               match d_name ad with
-              | POptional => pass1 ds' (match m with MReq => MOpt | _ => m end) st
-              | PRest => pass1 ds' MRest st
-              | PKey => pass1 ds' MKey st
+              | POptional => pass1 ks allow ds' (match m with MReq => MOpt | _ => m end) st
+              | PRest => pass1 ks allow ds' MRest st
+              | PKey =>                                  (* mode = keyMode; bindKeys() *)
+                  match key_loop (S (length (p_args st))) ks allow (p_args st) (p_args st) (p_b st) with
+                  | inl b => pass1 ks allow ds' MKey {| p_args := []; p_b := b; p_rest := p_rest st; p_restsym := p_restsym st; p_err := None |}
+                  | inr k => {| p_args := p_args st; p_b := p_b st; p_rest := p_rest st; p_restsym := p_restsym st; p_err := Some k |}
+                  end
               | PAux => st                               (* break Aux *)
-              | PAllow => pass1 ds' m st
-              | PVar x => pass1 ds' m {| p_args := rest_args; p_b := bind (p_b st) x (arg_val a); p_rest := p_rest st;
+              | PAllow => pass1 ks allow ds' m st
+              | PVar x => pass1 ks allow ds' m {| p_args := rest_args; p_b := bind (p_b st) x (arg_val a); p_rest := p_rest st;
                                           p_restsym := p_restsym st; p_err := None |}
               end
           | MRest =>
-              let '(acc, remaining, switched) := rest_loop ds' (p_args st) (p_rest st) in
+              let '(acc, remaining, switched) := rest_loop ks (p_args st) (p_rest st) in
               let sym := match d_name ad, p_restsym st with
                          | PVar x, None => if Nat.eqb (length acc) (length (p_rest st)) then None else Some x
                          | _, s => s end in
-              pass1 ds' (if switched then MKey else MRest)
+              pass1 ks allow ds' (if switched then MKey else MRest)
                     {| p_args := remaining; p_b := p_b st; p_rest := acc; p_restsym := sym; p_err := None |}
           | MKey =>
-              match key_loop (S (length (p_args st))) (p_args st) (p_b st) with
-              | inl b => pass1 ds' MKey {| p_args := []; p_b := b; p_rest := p_rest st; p_restsym := p_restsym st; p_err := None |}
+              match key_loop (S (length (p_args st))) ks allow (p_args st) (p_args st) (p_b st) with
+              | inl b => pass1 ks allow ds' MKey {| p_args := []; p_b := b; p_rest := p_rest st; p_restsym := p_restsym st; p_err := None |}
               | inr k => {| p_args := p_args st; p_b := p_b st; p_rest := p_rest st; p_restsym := p_restsym st; p_err := Some k |}
               end
           end
@@ -114,15 +154,23 @@ Fixpoint pass2 (ds : list docarg) (m : mode2) (b : list (N * value)) : list (N *
 Definition params (ds : list docarg) : list N :=
   flat_map (fun d => match d_name d with PVar x => [x] | _ => [] end) ds.
 
+(* FuncDoc.requiredCount: the entries before the first marker *)
+Fixpoint req_count (ds : list docarg) : nat :=
+  match ds with
+  | d :: ds' => match d_name d with PVar _ => S (req_count ds') | _ => O end
+  | [] => O
+  end.
+
 (* Lambda.Call up to BoundCall; the body then reports every parameter (or that it is unbound) *)
 Definition bind_M (ds : list docarg) (args : list arg) : outcome :=
-  let st := pass1 ds MReq {| p_args := args; p_b := []; p_rest := []; p_restsym := None; p_err := None |} in
+  let st := pass1 (key_params ds) (has_allow ds) ds MReq {| p_args := args; p_b := []; p_rest := []; p_restsym := None; p_err := None |} in
   match p_err st with
   | Some k => OErr k
   | None =>
       match p_args st with
       | _ :: _ => OErr KTooMany
       | [] =>
+          if (length args <? req_count ds)%nat then OErr KTooFew else
           let b := match p_rest st, p_restsym st with
                    | _ :: _, Some r => bind (p_b st) r (VList (p_rest st))
                    | _, _ => p_b st end in
